@@ -88,7 +88,7 @@ def tricky_expr(r):
     return "%s(%s, %s)[%s]" % (a, b, r.choice(["-1", "+b", "*p", "&q"]), r.choice(["0", "i++", "--j"]))
 
 
-COMMENTS = ["// plain", "//", "// ends with backslash \\", "/* block */", "/**/", "/* multi\n   line */", "/* tab\there */", "// café 中",
+COMMENTS = ["// plain", "//", "// ends with backslash \\", "// backslash then blank C:\\tmp\\ ", "// backslash then tab \\\t", "// backslash, blanks \\   ", "/* block */", "/**/", "/* multi\n   line */", "/* tab\there */", "// café 中",
             "/* star\n * cont\n */", "/*! doc\n    *tight\n    */", "// a /* b */ c", "/* a // b */", "//\ttab", "// trailing   ", "/*  two  spaces  */"]
 LITERALS = ["\"plain\"", "\"esc \\\" q\"", "\"tab\\there\"", "\"real\ttab\"", "'c'", "'\\''", "'\\\\'", "L\"wide\"", "u8\"u8\"", "u\"u\"", "U'x'", "L'w'",
             "R\"(raw \"q\" )\"", "R\"x(a)\"b)x\"", "LR\"(say \"hello,world\" and \"a+b=c\" twice)\"", "u8R\"d(x \t y)d\"", "UR\"(U)\"", "uR\"(u)\"",
